@@ -350,3 +350,7 @@ _run0 = run
 def run(chk):
     _run0(chk)
     chk.guard("R03.9", "lock-merge", check_lock_merge, chk, chk.facts())
+    # non-malleability of a script with a repeated key does not follow from its type: the sane parameters refuse such
+    # scripts through has_repeated_keys, which must see every repetition (rule shared with C12)
+    from . import c12
+    chk.guard("R03.10", "defect-predicates", c12.check_defect_predicates, chk, chk.facts(), "R03.10")
